@@ -182,3 +182,178 @@ Proof.
   intros H ty tag fl HT. apply tassoc_in in HT. unfold table_ok_b in H. rewrite forallb_forall in H.
   specialize (H _ HT). cbn [snd] in H. apply (proj1 (proj2 (ok_b_sound _))). exact H.
 Qed.
+
+(* ------------------------------------------------------------------ *)
+(* a computable well-formedness check, sound for [wf]                  *)
+(* ------------------------------------------------------------------ *)
+Definition wf_prim_b (k : kind) (v : val) : bool :=
+  match k, v with
+  | KInt, VInt z => ((- 2 ^ 31 <=? z) && (z <? 2 ^ 31))%Z
+  | KLong, VLong z | KTime, VTime z => ((- 2 ^ 63 <=? z) && (z <? 2 ^ 63))%Z
+  | KEnum, VEnum n => n <? 2 ^ 32
+  | KBool, VBool _ => true
+  | KBytes, VBytes b | KStr, VStr b => blen b <? 2 ^ 32
+  | KDur, VDur ns => ((0 <=? ns) && (ns <? 2 ^ 32 * nanos) && (ns mod nanos =? 0))%Z
+  | _, _ => false
+  end.
+
+Lemma wf_prim_b_sound k v : wf_prim_b k v = true -> wf_prim k v.
+Proof.
+  destruct k, v; cbn [wf_prim_b wf_prim]; try discriminate; intros H; try exact I.
+  - apply andb_true_iff in H. destruct H as [H1 H2]. apply Z.leb_le in H1. apply Z.ltb_lt in H2. lia.
+  - apply andb_true_iff in H. destruct H as [H1 H2]. apply Z.leb_le in H1. apply Z.ltb_lt in H2. lia.
+  - apply N.ltb_lt in H. exact H.
+  - apply N.ltb_lt in H. exact H.
+  - apply N.ltb_lt in H. exact H.
+  - apply andb_true_iff in H. destruct H as [H1 H2]. apply Z.leb_le in H1. apply Z.ltb_lt in H2. lia.
+  - apply andb_true_iff in H. destruct H as [H H3]. apply andb_true_iff in H. destruct H as [H1 H2].
+    apply Z.leb_le in H1. apply Z.ltb_lt in H2. apply Z.eqb_eq in H3.
+    exists (ns / nanos)%Z. unfold nanos in *. split.
+    + split; [apply Z.div_pos; lia|]. apply Z.div_lt_upper_bound; lia.
+    + rewrite Z.mul_comm. apply Z.div_exact; [lia|exact H3].
+Qed.
+
+Definition size_ok_b (T : tyenv) (fl : flist) (vs : vlist) : bool :=
+  match enc_fields T fl vs with Some body => blen body <? 2 ^ 32 | None => false end.
+
+Definition case_is (cs : dcases) (key : val) (s : sch) : bool :=
+  match lookup_case cs key with Some s' => sch_eqb s' s | None => false end.
+
+Fixpoint zero_like_b (s : sch) (v : val) {struct s} : bool :=
+  match s with
+  | SPrim k => prim_is_zero k v
+  | SStruct ty fl => match v with VStruct ty' vs => String.eqb ty' ty && zero_like_fields_b fl vs | _ => false end
+  | SDyn _ _ _ => match v with VNil => true | _ => false end
+  end
+with zero_like_fields_b (fl : flist) (vs : vlist) {struct fl} : bool :=
+  match fl, vs with
+  | FNil, VNone => true
+  | FCons a s r, VCons v vr =>
+      (if (fa_tag a =? ANY_TAG) || fa_skip a then true
+       else if fa_slice a then match v with VList VNone => true | _ => false end else zero_like_b s v)
+      && zero_like_fields_b r vr
+  | _, _ => false
+  end.
+
+Lemma zero_like_b_sound :
+  (forall s v, zero_like_b s v = true -> zero_like s v) /\
+  (forall fl vs, zero_like_fields_b fl vs = true -> zero_like_fields fl vs) /\
+  (forall cs : dcases, True).
+Proof.
+  apply sch_mutind.
+  - intros k v H. exact H.
+  - intros ty fl IH v H. destruct v; cbn [zero_like_b] in H; try discriminate. cbn [zero_like].
+    apply andb_true_iff in H. destruct H as [H1 H2]. apply String.eqb_eq in H1. split; [exact H1|apply IH; exact H2].
+  - intros h ki cs _ v H. destruct v; cbn [zero_like_b] in H; try discriminate. reflexivity.
+  - intros vs H. destruct vs; [exact I|discriminate].
+  - intros a s IHs r IHr vs H. destruct vs as [|v vr]; cbn [zero_like_fields_b] in H; [discriminate|].
+    cbn [zero_like_fields]. apply andb_true_iff in H. destruct H as [H1 H2]. split; [|apply IHr; exact H2].
+    destruct ((fa_tag a =? ANY_TAG) || fa_skip a); [exact I|]. destruct (fa_slice a).
+    + destruct v; try discriminate. destruct vs; [reflexivity|discriminate].
+    + apply IHs. exact H1.
+  - exact I.
+  - intros; exact I.
+Qed.
+
+Fixpoint wf_b (T : tyenv) (s : sch) (key : val) (v : val) {struct v} : bool :=
+  match s with
+  | SPrim k => wf_prim_b k v
+  | SStruct ty fl =>
+      match v with
+      | VStruct ty' vs => String.eqb ty' ty && wf_fields_b T fl VNone vs && size_ok_b T fl vs
+      | _ => false
+      end
+  | SDyn _ _ cs =>
+      match v with
+      | VNil => true
+      | VStruct ty vs | VPtr (VStruct ty vs) =>
+          match T ty with
+          | Some (_, fl) => case_is cs key (SStruct ty fl) && wf_fields_b T fl VNone vs && size_ok_b T fl vs
+          | None => false
+          end
+      | VInt _ => case_is cs key (SPrim KInt) && wf_prim_b KInt v
+      | VLong _ => case_is cs key (SPrim KLong) && wf_prim_b KLong v
+      | VEnum _ => case_is cs key (SPrim KEnum) && wf_prim_b KEnum v
+      | VBool _ => case_is cs key (SPrim KBool) && wf_prim_b KBool v
+      | VBytes _ => case_is cs key (SPrim KBytes) && wf_prim_b KBytes v
+      | VStr _ => case_is cs key (SPrim KStr) && wf_prim_b KStr v
+      | VTime _ => case_is cs key (SPrim KTime) && wf_prim_b KTime v
+      | VDur _ => case_is cs key (SPrim KDur) && wf_prim_b KDur v
+      | _ => false
+      end
+  end
+with wf_fields_b (T : tyenv) (fl : flist) (prev : vlist) (vs : vlist) {struct vs} : bool :=
+  match fl, vs with
+  | FNil, VNone => true
+  | FCons a s r, VCons v vr =>
+      (if on_wire a then
+         if fa_slice a then
+           match v with
+           | VList es => wf_elems_b T s es && (negb (fa_req a) || match es with VNone => false | _ => true end)
+           | _ => false
+           end
+         else if negb (fa_req a) && is_zero s v then zero_like_b s v
+         else wf_b T s (key_of s prev) v
+       else true) &&
+      wf_fields_b T r (vl_snoc prev v) vr
+  | _, _ => false
+  end
+with wf_elems_b (T : tyenv) (s : sch) (es : vlist) {struct es} : bool :=
+  match es with
+  | VNone => true
+  | VCons e er => wf_b T s VNil e && wf_elems_b T s er
+  end.
+
+Lemma case_is_sound cs key s : case_is cs key s = true -> lookup_case cs key = Some s.
+Proof.
+  unfold case_is. destruct (lookup_case cs key) as [s'|]; [|discriminate]. intros H.
+  apply (proj1 sch_eqb_eq) in H. subst. reflexivity.
+Qed.
+
+Lemma size_ok_b_sound T fl vs : size_ok_b T fl vs = true -> exists body, enc_fields T fl vs = Some body /\ blen body < 2 ^ 32.
+Proof.
+  unfold size_ok_b. destruct (enc_fields T fl vs) as [body|]; [|discriminate]. intros H. apply N.ltb_lt in H. eauto.
+Qed.
+
+Lemma wf_b_sound T :
+  (forall v, (forall s key, wf_b T s key v = true -> wf T s key v) /\
+             (match v with VList es => forall s, wf_elems_b T s es = true -> wf_elems T s es | _ => True end)) /\
+  (forall vs, (forall fl prev, wf_fields_b T fl prev vs = true -> wf_fields T fl prev vs) /\
+              (forall s, wf_elems_b T s vs = true -> wf_elems T s vs)).
+Proof.
+  apply val_mutind.
+  1-8: intros x; (split; [|exact I]); intros s key H; destruct s as [k| |h ki cs];
+       [ apply wf_prim_b_sound; destruct k; exact H
+       | cbn [wf_b] in H; discriminate
+       | cbn [wf_b] in H; cbn [wf]; apply andb_true_iff in H; destruct H as [H1 H2];
+         split; [apply case_is_sound; exact H1|apply wf_prim_b_sound; exact H2] ].
+  - (* VStruct *) intros ty fs [Hf _]. split; [|exact I]. intros s key H. destruct s as [k|ty' fl|h ki cs].
+    + destruct k; discriminate.
+    + cbn [wf_b] in H. cbn [wf]. apply andb_true_iff in H. destruct H as [H H3]. apply andb_true_iff in H. destruct H as [H1 H2].
+      apply String.eqb_eq in H1. split; [exact H1|]. split; [apply Hf; exact H2|apply size_ok_b_sound; exact H3].
+    + cbn [wf_b] in H. cbn [wf]. destruct (T ty) as [[tag fl]|] eqn:HT; [|discriminate].
+      apply andb_true_iff in H. destruct H as [H H3]. apply andb_true_iff in H. destruct H as [H1 H2].
+      exists tag, fl. split; [reflexivity|]. split; [apply case_is_sound; exact H1|].
+      split; [apply Hf; exact H2|apply size_ok_b_sound; exact H3].
+  - (* VList *) intros vs [_ He]. split; [|exact He]. intros s key H. destruct s as [k| |]; [destruct k; discriminate|discriminate|discriminate].
+  - (* VNil *) split; [|exact I]. intros s key H. destruct s as [k| |]; [destruct k; discriminate|discriminate|exact I].
+  - (* VPtr *) intros v [IH _]. split; [|exact I]. intros s key H. destruct s as [k| |h ki cs]; [destruct k; discriminate|discriminate|].
+    destruct v; cbn [wf_b] in H; try discriminate.
+    specialize (IH (SDyn h ki cs) key). cbn [wf_b wf] in IH. cbn [wf]. apply IH. exact H.
+  - (* VBad *) intros w. split; [|exact I]. intros s key H. destruct s as [k| |]; [destruct k; discriminate|discriminate|discriminate].
+  - (* VNone *) split.
+    + intros fl prev H. destruct fl; [exact I|discriminate].
+    + intros s H. exact I.
+  - (* VCons *) intros v [IHv IHl] vr [IHf IHe]. split.
+    + intros fl prev H. destruct fl as [|a s r]; [discriminate|]. cbn [wf_fields_b] in H. cbn [wf_fields].
+      apply andb_true_iff in H. destruct H as [H1 H2]. split; [|apply IHf; exact H2].
+      destruct (on_wire a); [|exact I]. destruct (fa_slice a).
+      * destruct v; try discriminate. apply andb_true_iff in H1. destruct H1 as [Ha Hb]. split; [apply IHl; exact Ha|].
+        intros Hq. rewrite Hq in Hb. cbn in Hb. destruct vs; [discriminate|discriminate].
+      * destruct (negb (fa_req a) && is_zero s v); [apply (proj1 zero_like_b_sound); exact H1|apply IHv; exact H1].
+    + intros s H. cbn [wf_elems_b] in H. cbn [wf_elems]. apply andb_true_iff in H. destruct H as [H1 H2].
+      split; [apply IHv; exact H1|apply IHe; exact H2].
+Qed.
+
+Theorem wf_b_wf T s key v : wf_b T s key v = true -> wf T s key v.
+Proof. exact (proj1 (proj1 (wf_b_sound T) v) s key). Qed.
